@@ -88,6 +88,10 @@ func runConn(c ConnCase, k *ev.Case) *ev.Failure {
 				inc.Send(&message.UpstreamOpenResponse{RequestID: m.RequestID, ResultCode: message.ResultCodeTooManyStreams, ResultString: "refused", DataIDAliases: map[uint32]*message.DataID{}})
 				return sim.Handled
 			}
+		case *message.DownstreamCloseRequest:
+			if st := b.Downstream(m.StreamID); st != nil && st.OpenReq != nil && len(st.OpenReq.DownstreamFilters) > 0 && st.OpenReq.DownstreamFilters[0].SourceNodeID == "dead-node" {
+				return sim.Handled // never answered
+			}
 		case *message.DownstreamOpenRequest:
 			if len(m.DownstreamFilters) > 0 && m.DownstreamFilters[0].SourceNodeID == "fail-node" {
 				inc.Send(&message.DownstreamOpenResponse{RequestID: m.RequestID, ResultCode: message.ResultCodeTooManyStreams, ResultString: "refused"})
@@ -238,6 +242,23 @@ func runConn(c ConnCase, k *ev.Case) *ev.Failure {
 				conn.OpenDownstream(vctx, []*message.DownstreamFilter{message.NewDownstreamFilterAllFor("fail-node")})
 			case "metadata":
 				conn.SendMetadata(vctx, &message.BaseTime{Name: "victim", BaseTime: time.Unix(1, 0)})
+			case "dead-down-flood":
+				// a downstream whose close request the broker never answers: closed at the client (Close timed out), still served by
+				// the broker, which goes on sending it far more chunks than any per-stream queue of the client holds. The streams
+				// next to it must keep receiving theirs (seeded change C07/m2: the connection's dispatcher waited on that queue).
+				if d, err := conn.OpenDownstream(vctx, []*message.DownstreamFilter{message.NewDownstreamFilterAllFor("dead-node")}, iscp.WithDownstreamQoS(message.QoSReliable)); err == nil {
+					st := b.Downstream(d.ID)
+					cctx, cc := sim.Ctx(60 * time.Millisecond)
+					d.Close(cctx)
+					cc()
+					if inc := b.CurrentInc(); st != nil && st.Inc == inc.Index && !inc.Link.Dead() {
+						for j := 1; j <= 1300; j++ {
+							inc.Send(&message.DownstreamChunk{StreamIDAlias: st.Alias, UpstreamOrAlias: &message.UpstreamInfo{SessionID: "for-dead", SourceNodeID: "dead-node", StreamID: uuid.UUID{0x98}},
+								StreamChunk: &message.StreamChunk{SequenceNumber: uint32(j), DataPointGroups: []*message.DataPointGroup{{DataIDOrAlias: &message.DataID{Name: "for-dead", Type: "t"},
+									DataPoints: []*message.DataPoint{{ElapsedTime: time.Duration(j), Payload: []byte("to-nobody")}}}}}})
+						}
+					}
+				}
 			}
 			vc()
 		}
@@ -469,7 +490,7 @@ var subConn = ev.Sub[ConnCase]{Name: "connection", Repeats: 10, Q: 40, T: 1200,
 		for i := 0; i < nd; i++ {
 			c.DownQoS = append(c.DownQoS, rapid.IntRange(1, 2).Draw(t, "dq"))
 		}
-		c.Victims = rapid.SliceOfN(rapid.SampledFrom([]string{"open-close-up", "open-close-down", "failed-open-up", "failed-open-down", "metadata"}), 0, 8).Draw(t, "victims")
+		c.Victims = rapid.SliceOfN(rapid.SampledFrom([]string{"open-close-up", "open-close-down", "failed-open-up", "failed-open-down", "metadata", "dead-down-flood"}), 0, 8).Draw(t, "victims")
 		c.Interleave = rapid.SliceOfN(rapid.SampledFrom([]int{0, 0, 20, 100, 400}), 1, 5).Draw(t, "interleave")
 		return c
 	}, Run: runConn}
@@ -487,4 +508,6 @@ func TestRegress(t *testing.T) {
 	for i := 0; i < 4; i++ {
 		subConn.One(t, ConnCase{Codec: "proto", UpQoS: []int{1, 0, 2, 1}, DownQoS: []int{1}, Writes: 6, Chunks: 4, Outage: true, Withhold: []int{3, 0, 0, 2}, Interleave: []int{0, 50}, Policy: upk.Policy{Kind: "none"}})
 	}
+	// seeded change C07/m2: a dead-but-served downstream floods the connection's dispatcher
+	subConn.One(t, ConnCase{Codec: "proto", UpQoS: []int{1}, DownQoS: []int{1, 2}, Writes: 3, Chunks: 6, Victims: []string{"dead-down-flood"}, Interleave: []int{0}, Policy: upk.Policy{Kind: "none"}})
 }
